@@ -167,8 +167,12 @@ func loopMain(p LoopParams) {
 		if pk.Kind != "mutation" || !strings.HasPrefix(string(pk.Key), helpers.Prefix) {
 			return
 		}
-		_, dirty, flag := e.Stream.GetOffsets()
-		mark, _ := dirty.Load(pk.Vb)
+		var mark, flag bool
+		vrt.Atomically(func() {
+			_, dirty, f := e.Stream.GetOffsets()
+			mark, _ = dirty.Load(pk.Vb)
+			flag = f
+		})
 		if !after {
 			markBefore, flagBefore = mark, flag
 			return
